@@ -126,13 +126,22 @@ def run(ctx):
         "design variant of the model bound to the code: %s" % json.dumps(A.DESIGN),
     ]
     # ------------------------------------------------------------ 1. exhaustive
-    consts = dict(Runs="R2", Cap=2, StepBeh="BehAll", EmitRuns="R1" if thorough else "None", WithClose="TRUE", MaxUnsol=1)
-    cfg = A.mc_cfg(os.path.join(ctx.tmp, "c08_mc.cfg"), consts, invariants=INVS, spec="FSpec")
-    r = ctx.tlc("ATPClientEnvMC", cfg, workers=min(14, common.NCPU), timeout=3000, allow_violation=True, heap="24g")
-    ctx.log("model: %r" % r)
+    consts = dict(Runs="R2", Cap=2, StepBeh="BehAll", EmitRuns="R1", WithClose="TRUE", MaxUnsol=1)
+    if thorough:
+        variants = [("full", consts)]
+    else:
+        variants = [("close_nounsol", dict(consts, EmitRuns="None", MaxUnsol=0)),
+                    ("unsol_noclose", dict(consts, EmitRuns="None", WithClose="FALSE"))]
+    r = None
+    for name, cc in variants:
+        cfg = A.mc_cfg(os.path.join(ctx.tmp, "c08_mc_%s.cfg" % name), cc, invariants=INVS, spec="FSpec")
+        r = ctx.tlc("ATPClientEnvMC", cfg, workers=min(14, common.NCPU), timeout=3000, allow_violation=True, heap="24g")
+        ctx.log("model %s: %r" % (name, r))
+        if r.violated:
+            break
     scen = []
     cex = None
-    if r.violated:
+    if r is not None and r.violated:
         cex = r.violated
         scen.append(dict(id="cex/" + r.violated, mode="client", ops=ops_from_behaviour(r.out)))
     if thorough and not cex:
